@@ -207,7 +207,7 @@ def classify_ls(res, case):
     return out
 
 
-PLAN = e1prop.Plan('C13', LS_ROWS, cfgs=('v6', 'v6', 'v7', 'v5', 'v6-nosec'), classify=classify_ls,
+PLAN = e1prop.Plan('C13', LS_ROWS, cfgs=('v6', 'v6', 'v7', 'v5', 'v6-nosec', 'v7-lpae'), classify=classify_ls,
                    case_kw=lambda rng, row: {'mpu': False, 'mmu': False, 'e': rng.getrandbits(1)}, tweak_case=aim_unaligned,
                    hooked=(False, False, True))
 
